@@ -114,6 +114,17 @@ def gen_c06(ctx):
                 for tail in (['N'], [dict(late=late)], ['D', 'N']):
                     ls = [dict(frag=(6 if k == 'udp' else 10), delay=d1, second='exact'), dict(late=late)] + tail
                     out.append(base(k, ka, 2, ls, default='N', phases=[[req(0, 0, count=2), req(1, 0, reg=300, count=2), req(2, 0, reg=500, count=2)]]))
+    # callers that queue for longer than a whole request budget: the first caller exhausts its retries while three more wait for the lock,
+    # then answers that are late but in time (a deadline that counts the time spent queued would expire while a transmission is in flight)
+    fam = []
+    for r in (0, 1, 2, 3):
+        for tail in itertools.product(['D', dict(late=0.6), dict(late=0.9), 'N'], repeat=3):
+            for k in ('udp', 'tcp'):
+                for ka in (True, False):
+                    starts = [0, 100, 200, 300] if r < 3 else [0, 0, 0, (r + 1) * 1000]
+                    fam.append(base(k, ka, r, ['D'] * (r + 1) + list(tail), default='N',
+                                    phases=[[req(i, at, reg=100 + 100 * i, count=2) for i, at in enumerate(starts)]]))
+    out += fam if ctx.deep else ctx.rng.sample(fam, 60)
     # (the first piece of a fragmented answer always contains the whole header: a shorter piece is an invalid response to the library, C07)
     for _ in range(20 if not ctx.deep else 300):
         k = ctx.rng.choice(['udp', 'tcp']); ka = ctx.rng.random() < 0.6
